@@ -27,6 +27,21 @@ Definition a_amplified (steps : nat) (ss : list (@ast cf cvec)) : bool :=
 Definition last_is_noise (steps : nat) (s : @ast cf cvec) : bool :=
   match steps with 0 => false | S j => subd s j <? amp_tol * hscale s end.
 
+(* loss of orthogonality of the model's own active columns: single-pass modified Gram-Schmidt loses orthogonality in
+   proportion to the conditioning of the Krylov sequence; two binary64 executions that differ by rounding-level
+   perturbations then differ by as much, so beyond 1e-12 the case is not compared *)
+Definition orth_tol : float := 0x1.19799812dea11p-40.   (* 1e-12 *)
+Definition orth_loss (steps : nat) (s : @ast cf cvec) : float :=
+  let k := if last_is_noise steps s then steps else S steps in
+  let qs := firstn k (aQ s) in
+  fold_left (fun acc qa =>
+    fold_left (fun acc2 qb =>
+      let d := fvdot (snd qa) (snd qb) in
+      let e := if Nat.eqb (fst qa) (fst qb) then fsub d f1 else d in
+      fmax acc2 (cabs1 e)) (combine (seq 0 k) qs) acc) (combine (seq 0 k) qs) 0.
+Definition a_illcond (steps : nat) (ss : list (@ast cf cvec)) : bool :=
+  existsb (fun s => orth_tol <? orth_loss steps s) ss.
+
 Definition drop_col {T} (k : nat) (l : list T) : list T := firstn k l ++ skipn (S k) l.
 
 Definition a_close (steps : nat) (s : @ast cf cvec) (q : list cvec * list cvec) : bool :=
@@ -41,7 +56,7 @@ Definition acheck (c : acase) : nat :=
   let cap := Nat.min (a_mi c) (a_n c) in
   let r := arnoldi_batch o (fmv (a_A c)) (a_n c) (a_vs c) (a_mi c) (a_tol c, 0) in
   let steps := fst r in
-  if a_amplified steps (snd r) then 2%nat
+  if a_amplified steps (snd r) || a_illcond steps (snd r) then 2%nat
   else if Nat.eqb (length (snd r)) (length (a_out c)) && forallb (fun p => a_close steps (fst p) (snd p)) (combine (snd r) (a_out c)) then 0%nat
   else if a_near_tie (a_tol c) cap steps (snd r) then 1%nat
   else 4%nat.
